@@ -47,6 +47,11 @@ def novel_case(spec, hygiene_only=False):
     rng = random.Random(spec['seed'])
     ref = gen_ref(rng)
     cfg = gen_cfg(rng)
+    if hygiene_only:
+        # hygiene runs aim at the limits: W>F forms (39 Da lighter per W) around a minimum mass inside the range of peptide masses
+        cfg['w2f'] = rng.random() < 0.8
+        cfg['min_mw'] = rng.choice([800., 1000., 1200., 1500., 1900., 2300.])
+        cfg['max_length'] = rng.choice([12, 15, 25])
     wd = drivers.case_dir('c08-')
     try:
         refgen.write_reference(ref, wd)
@@ -210,6 +215,10 @@ def alt_case(spec, hygiene_only=False):
     cfg = gen_cfg(rng)
     sect = rng.random() < 0.7
     w2f = rng.random() < 0.6 or not sect
+    if hygiene_only:
+        w2f = True
+        cfg['min_mw'] = rng.choice([800., 1000., 1200., 1500., 1900., 2300.])
+        cfg['max_length'] = rng.choice([12, 15, 25])
     wd = drivers.case_dir('c09-')
     try:
         refgen.write_reference(ref, wd)
